@@ -111,6 +111,7 @@ struct SimSocket {
     muted: Arc<std::sync::atomic::AtomicBool>,
     /// blocks of the unrecorded conformant prefix already played by the socket itself
     ff: Mutex<i64>,
+    hs_done: std::sync::atomic::AtomicBool,
 }
 
 impl SimSocket {
@@ -231,6 +232,10 @@ impl Socket for SimSocket {
         {
             let mut ff = self.ff.lock().unwrap();
             if *ff < self.cfg.base0 {
+                if self.cfg.sending && self.cfg.chk && !self.hs_done.swap(true, std::sync::atomic::Ordering::SeqCst) {
+                    // the prefix of a transfer with options begins with the acknowledgement of the OACK
+                    return Ok(Packet::Ack(0));
+                }
                 if self.cfg.sending {
                     let target = (*ff + self.cfg.w).min(self.cfg.base0).min(self.cfg.nb);
                     *ff = target;
@@ -339,6 +344,7 @@ impl Sim {
         let sock = SimSocket {
             muted: muted.clone(),
             ff: Mutex::new(0),
+            hs_done: std::sync::atomic::AtomicBool::new(false),
             cfg: cfg.clone(),
             log: log.clone(),
             rx: Mutex::new(rx),
